@@ -37,7 +37,9 @@ def gen(rng, tier):
                 continue
             for point in ("first", "mid", "final"):
                 # ---- HTTP/1 transport pause
-                for release in ("resume", "reset", "protocol_error"):
+                # (eof: the client has finished sending - half-closed - and takes nothing: it is not waited for beyond the time an idle
+                #  connection is kept)
+                for release in ("resume", "reset", "protocol_error", "eof"):
                     cases.append(("h1.pause", size, chunk, point, release, 0))
                 # ---- HTTP/2
                 for kind in ("h2.stream0", "h2.conn0", "h2.pause"):
@@ -193,12 +195,12 @@ def _build(rng, n, kind, size, chunk, point, release, sib):
         else:
             client += [["pause"], ["feed", req], ["settle"]]
         client += [["mark", "stall"]]
-        client += {"resume": [["resume"]], "reset": [["reset"]], "protocol_error": [["feed", b"zz\r\nnot-a-chunk\r\n"]]}[release]
+        client += {"resume": [["resume"]], "reset": [["reset"]], "protocol_error": [["feed", b"zz\r\nnot-a-chunk\r\n"]], "eof": [["eof"]]}[release]
         client += [["settle"]]
         return {"family": "%s.%s.%s" % (kind, point, release), "backends": ["asyncio", "trio"],
                 # (a close the server itself decides on is still owed what it had written: a client that takes none of it is waited for as
                 #  long as an idle connection is kept, here 5 s of virtual time, not for ever)
-                "config": {"keep_alive_timeout": 5000 if release != "protocol_error" else 5}, "conn": {}, "apps": {"default": script, "by_tag": by_tag},
+                "config": {"keep_alive_timeout": 5000 if release not in ("protocol_error", "eof") else 5}, "conn": {}, "apps": {"default": script, "by_tag": by_tag},
                 "client": client, "truth": truth, "sched": {"seed": rng.randrange(1 << 30)}, "horizon": 100.0}
     fb = FrameBuilder()
     rspec = {"kind": "h2", "credit": "none"}
